@@ -174,6 +174,17 @@ check("C05", "GC never removes retained or recent content", "exploration",
       "DESIGN.md §3 C05",
       [R("^TestC05$", 4000, 120000, steps=35)])
 
+check("C06", "collection removes exactly the garbage, converges, is not starved", "exploration",
+      "E2 object graphs + multi-repository mixes (ghost/empty/removed/corrupt) aged beyond grace; oracle = reachability over the post-pass index (no garbage, no dangling entry), policy rules where unambiguous, second pass is a no-op, per healthy repository",
+      "Randomised search over object graphs and delete histories in two healthy repositories plus up to six unhealthy ones (only ever read, emptied and removed, index.json garbage or deleted, directory "
+      "deleted behind the store), everything older than the grace period; one store-wide pass must leave, in every healthy repository, only blobs reachable from the surviving index entries, no entry "
+      "without blob, nothing untagged/unrooted when untagged collection is on, no non-empty referrers response of a subject it removed (policies of Appendix B), no directory of an emptied repository, "
+      "and a second pass must change neither index, blob set, API answers nor the tree.",
+      "Trusted: reachability computed by the harness over blobs read back through the API and the index obtained through the add-only hook VerifIndexJSON; ambiguous policy combinations (Untagged off + "
+      "ReferrersDangling on for never-existing subjects) and empty responses are not asserted.",
+      "DESIGN.md §3 C06",
+      [R("^TestC06$", 3000, 100000, steps=30)])
+
 NOT_APPLICABLE = {}
 
 # --------------------------------------------------------------------------- helpers
